@@ -1,4 +1,5 @@
 pub mod c05;
+pub mod c0607;
 pub mod c10;
 pub mod c11;
 pub mod c12;
